@@ -416,7 +416,8 @@ Proof.
     eapply triple_bind with (Qm := fun _ w => Inv w /\ True); [apply (triple_data_inv True); cbn; intros; exact I|].
     intros y. apply triple_ret'; auto. }
   intros bad. destruct bad; [tfail|].
-  tdatI. tdatI. tdatI. tdatI. tdatI. tdatI. tdatI. tdatI. tdatI. tdatI. tdatI. tdatI.
+  tdatI. tdatI. tdatI. tdatI. tdatI. tdatI. tdatI. tdatI.
+  eapply triple_bind; [apply (triple_data_inv True); destruct (has_kind ks KVA); cbn; intros; exact I|intros anchors; cbv beta].
   eapply triple_conseq with (P := Inv) (Qd := fun _ => Inv) (Qf := anyf); [intros w [A _]; exact A|intros ? w A; split; [exact A|exact I]|auto|].
   eapply triple_bind with (Qm := fun _ => Inv); [apply (inv_one_unsew ks); exact He|intros ?].
   eapply triple_bind with (Qm := fun _ => Inv); [apply (inv_one_unsew ks); exact Hokr|intros ?].
@@ -427,7 +428,7 @@ Proof.
   eapply triple_bind with (Qm := fun _ => Inv); [apply inv_data, wi_restore_vertex|intros ?].
   eapply triple_bind with (Qm := fun _ => Inv); [apply inv_data, wi_restore_vertex|intros ?].
   eapply triple_bind with (Qm := fun _ => Inv); [apply inv_data, wi_restore_vertex|intros ?].
-  destruct (has_kind ks KVA); [|apply triple_ret'; auto].
+  destruct anchors as [[[[aa ab] ac] ad]|]; [|apply triple_ret'; auto].
   eapply triple_bind with (Qm := fun _ => Inv); [apply inv_data, wi_restore_anchor|intros ?].
   eapply triple_bind with (Qm := fun _ => Inv); [apply inv_data, wi_restore_anchor|intros ?].
   eapply triple_bind with (Qm := fun _ => Inv); [apply inv_data, wi_restore_anchor|intros ?].
